@@ -77,7 +77,7 @@ def main():
     chk = Check("C18", "exploration", a.tier)
     rng = Rng(chk.seed, 18)
     quick = a.tier != "thorough"
-    subs = subjects(chk.seed, 60 if quick else 1200)
+    subs = subjects(chk.seed, 180 if quick else 1200)
     # the ledger language of the project cycles v3, v3, v2, v1: applying a parameter must keep it
     # (the hash published after each step is the hash of the new code *for the declared language*)
     PLUTUS = ["v3", "v3", "v2", "v1"]
